@@ -169,7 +169,7 @@ def impl_parse(case):
     from haptools import data as D
 
     f = _dir / "h.pheno"
-    open(f, "w").write("\n".join("\t".join(l) for l in case["lines"]) + "\n")
+    open(f, "w").write(C.text_ending(case, "h.pheno", "\n".join("\t".join(l) for l in case["lines"]) + "\n"))
     with C.capture_logs() as cap:
         p = D.Phenotypes(f, log=cap.logger)
         try:
@@ -288,6 +288,17 @@ def impl_ops(case):
         r1 = C.guarded(lambda: (lambda q: {"names": list(q.names), "data": np.asarray(q.data).tolist()})(p.subset(names=("e1",))))
         r2 = C.guarded(lambda: (lambda q: {"names": list(q.names), "data": np.asarray(q.data).tolist()})(p.subset(names=("e2", case["names"][0]))))
         out["append_history"] = [r1, r2]
+        if n_ >= 2:
+            # two tables cut from one (train / test) after its lookups were built; each gets a column of its own: a name
+            # exists only in the table it was appended to
+            p = mk()
+            p.index()
+            h = n_ // 2
+            tr, te = p.subset(samples=tuple(case["samples"][:h])), p.subset(samples=tuple(case["samples"][h:]))
+            tr.append("prs", np.arange(h, dtype=np.float64) + 10)
+            te.append("batch", np.arange(n_ - h, dtype=np.float64) + 20)
+            snap = lambda q: {"names": list(q.names), "data": np.asarray(q.data).tolist()}
+            out["siblings"] = [C.guarded(lambda: snap(o.subset(names=q))) for o, q in ((tr, ("prs",)), (te, ("batch",)), (te, ("prs",)), (p, ("prs",)), (tr, (case["names"][0], "prs")), (p, ("batch", case["names"][0])))]
     p = mk()
     r = p.subset(samples=None if case["rs"] is None else tuple(case["rs"]), names=None if case["cs"] is None else tuple(case["cs"]))
     out["subset"] = {"names": list(r.names), "samples": list(r.samples), "data": np.asarray(r.data).tolist()}
@@ -331,6 +342,20 @@ def oracle_ops(case, obs):
         w2 = {"names": ["e2", case["names"][0]], "data": [[float(i + 200), D[i][0]] for i in range(ns)]}
         if r1 != w1 or r2 != w2:
             return f"after a by-name lookup and two appends, subset(names=('e1',)) gave {r1} and subset(names=('e2', {case['names'][0]!r})) gave {r2}; expected {w1} and {w2}"
+    if "siblings" in obs:
+        h = ns // 2
+        n0 = case["names"][0]
+        want = [
+            {"names": ["prs"], "data": [[float(i + 10)] for i in range(h)]},
+            {"names": ["batch"], "data": [[float(i + 20)] for i in range(ns - h)]},
+            {"names": [], "data": [[] for _ in range(ns - h)]},  # 'prs' was appended to the other table
+            {"names": [], "data": [[] for _ in range(ns)]},  # … and never to the table both were cut from
+            {"names": [n0, "prs"], "data": [[D[i][0], float(i + 10)] for i in range(h)]},
+            {"names": [n0], "data": [[D[i][0]] for i in range(ns)]},
+        ]
+        for k, (g, w) in enumerate(zip(obs["siblings"], want)):
+            if g != w:
+                return f"two tables cut from one (first {h} samples / the rest), 'prs' appended to the first and 'batch' to the second: by-name selection no. {k} gave {g}, expected {w}"
     a = obs["append"]
     if a["names"] != case["names"] + ["extra"] or a["samples"] != case["samples"] or a["data"] != [D[i] + [float(i)] for i in range(ns)]:
         return f"append produced {a}"
